@@ -105,3 +105,14 @@ Proof. intros Hp Hr. unfold construct. now rewrite Hp, Hr. Qed.
 Theorem import_fail users own_pump own_runtime : loc_get users SPump = None \/ loc_get users SRuntime = None ->
   construct OImport users own_pump own_runtime = Throws.
 Proof. intros [H|H]; unfold construct; rewrite H; [reflexivity|]. destruct (loc_get users SPump); reflexivity. Qed.
+
+Lemma facility_members_in_dependency_order : forall o,
+  forall m deps, In (m, deps) (initialiser_deps o [] []) ->
+  forall d, In d deps -> exists i j, index_of d (declared_members o [] []) = Some i /\ index_of m (declared_members o [] []) = Some j /\ (i < j)%nat.
+Proof.
+  intros [|] m deps Hin d Hd; cbn in Hin.
+  - destruct Hin as [E|[E|[]]]; inversion E; subst; destruct Hd.
+  - destruct Hin as [E|[E|[]]]; inversion E; subst.
+    + destruct Hd as [<-|[<-|[]]]; [exists 0%nat, 2%nat|exists 1%nat, 2%nat]; repeat split; auto with arith.
+    + destruct Hd as [<-|[]]. exists 2%nat, 3%nat. repeat split; auto with arith.
+Qed.
